@@ -19,6 +19,12 @@ Proof.
   - rewrite in_app_iff. simpl. split; [intros [H|[H|[]]]; auto | intros [H|H]; auto].
 Qed.
 
+Lemma NoDup_app_l {A} (l1 l2 : list A) : NoDup (l1 ++ l2) -> NoDup l1.
+Proof.
+  induction l1 as [|a l1 IH]; intros H; [constructor|]. simpl in H. inversion H; subst. constructor; [|apply IH; assumption].
+  intros Ha. apply H2. apply in_app_iff. left. exact Ha.
+Qed.
+
 Lemma tsum_perm {A} (f : A -> nat) l1 l2 : Permutation l1 l2 -> tsum f l1 = tsum f l2.
 Proof.
   intros H. induction H; try reflexivity.
@@ -30,7 +36,7 @@ Qed.
 Lemma tsum_incl_le (f : positive -> nat) l nodes :
   NoDup l -> (forall p, In p l -> In p nodes) -> (tsum f l <= tsum f nodes)%nat.
 Proof.
-  revert nodes. induction l as [|a l IH]; intros nodes Hnd Hin; [rewrite tsum_nil_0; lia|].
+  revert nodes. induction l as [|a l IH]; intros nodes Hnd Hin; [rewrite tsum_nil; lia|].
   inversion Hnd as [|? ? Ha Hnd']; subst.
   destruct (in_split a nodes (Hin a (or_introl eq_refl))) as [n1 [n2 ->]].
   rewrite tsum_cons, tsum_app, tsum_cons.
@@ -51,4 +57,409 @@ Proof.
   { apply NoDup_Permutation; [exact Hl | apply NoDup_filter; exact Hn|]. intros p. rewrite filter_In. apply Hiff. }
   rewrite (tsum_perm f _ _ HP). clear. induction nodes as [|a nodes IH]; [reflexivity|].
   rewrite tsum_cons. cbn [filter]. destruct (b a); [rewrite tsum_cons|]; rewrite IH; reflexivity.
+Qed.
+
+(* ------------------------------------------------------------------------------------------------ first pass *)
+
+Section FP.
+  Variable g : graph.
+  Let nodes := g_nodes g.
+  Let dp := fun n => getl (g_deps g) n.
+  Let c0 := g_cnt g.
+  Let M := fp_start g.
+
+  (* forward-dependency closure of the marked (= incomplete) nodes *)
+  Inductive reach : positive -> Prop :=
+  | reach_m n : In n M -> reach n
+  | reach_d p d : reach p -> In d (dp p) -> reach d.
+
+  Definition SP (P : list positive) (d : positive) : nat := tsum (fun p => countp d (dp p)) P.
+
+  Hypothesis Hnd : NoDup nodes.
+  Hypothesis Hcl : forall p d, In p nodes -> In d (dp p) -> In d nodes.
+  Hypothesis Hpre : forall n, In n nodes -> getz c0 n = 0 \/ getz c0 n = K64.
+  Hypothesis Hbound : forall d, In d nodes -> Z.of_nat (SP nodes d) < K64.
+
+  Definition grp_ok (inV : positive -> Prop) (grp : list positive) : Prop :=
+    forall s, In s grp <-> (g_bip g = true /\ exists v, inV v /\ PM.find v (g_setof g) = Some s).
+
+  Lemma add_group_ok (inV : positive -> Prop) grp d :
+    grp_ok inV grp -> grp_ok (fun v => v = d \/ inV v) (add_group g d grp).
+  Proof.
+    intros H s. specialize (H s). unfold add_group. destruct (g_bip g) eqn:Eb.
+    - destruct (PM.find d (g_setof g)) as [sd|] eqn:Ed.
+      + rewrite In_add_nodup, H. split.
+        * intros [->|[_ [v [Hv Hs]]]]; (split; [reflexivity|]); [exists d; auto | exists v; auto].
+        * intros [_ [v [[->|Hv] Hs]]]; [left; congruence | right; split; [reflexivity | exists v; auto]].
+      + rewrite H. split.
+        * intros [_ [v [Hv Hs]]]. split; [reflexivity | exists v; auto].
+        * intros [_ [v [[->|Hv] Hs]]]; [congruence | split; [reflexivity | exists v; auto]].
+    - rewrite H. split; intros [E _]; discriminate.
+  Qed.
+
+  Lemma grp_ok_ext (P Q : positive -> Prop) grp : (forall v, P v <-> Q v) -> grp_ok P grp -> grp_ok Q grp.
+  Proof.
+    intros E H s. rewrite (H s). split; intros [Hb [v [Hv Hs]]]; (split; [exact Hb | exists v; split; [apply E; exact Hv | exact Hs]]).
+  Qed.
+
+  (* state while the dependents of n are being processed: P = nodes already processed, done = prefix of dp n handled *)
+  Record JI (P : list positive) (n : positive) (done : list positive) (c : zmap) (vis q grp : list positive) : Prop := mkJI {
+    ji_perm : Permutation vis (P ++ n :: q);
+    ji_nodup : NoDup vis;
+    ji_in : forall v, In v vis -> In v nodes /\ reach v;
+    ji_m : forall m, In m M -> In m vis;
+    ji_closed : forall p d, In p P -> In d (dp p) -> In d vis;
+    ji_done : forall d, In d done -> In d vis;
+    ji_cnt : forall d, In d nodes -> (In d vis -> getz c d = Z.of_nat (SP P d + countp d done)) /\ (~ In d vis -> getz c d = K64);
+    ji_grp : grp_ok (fun v => In v vis) grp }.
+
+  Lemma SP_bound P n done todo d :
+    NoDup (P ++ [n]) -> (forall p, In p (P ++ [n]) -> In p nodes) -> done ++ todo = dp n -> In d nodes ->
+    Z.of_nat (SP P d + countp d done + countp d todo) < K64.
+  Proof.
+    intros Hn Hi Hd Hdn. pose proof (tsum_incl_le (fun p => countp d (dp p)) (P ++ [n]) nodes Hn Hi) as T.
+    rewrite tsum_app, tsum_cons, tsum_nil in T. rewrite <- Hd, countp_app in T. specialize (Hbound d Hdn). unfold SP in *. lia.
+  Qed.
+
+  Lemma perm_parts vis P n q :
+    Permutation vis (P ++ n :: q) -> NoDup vis -> (forall v, In v vis -> In v nodes) ->
+    NoDup (P ++ [n]) /\ (forall p, In p (P ++ [n]) -> In p nodes).
+  Proof.
+    intros Hp Hnv Hin.
+    assert (HN : NoDup (P ++ n :: q)) by (eapply Permutation_NoDup; eauto).
+    split.
+    - replace (P ++ n :: q) with ((P ++ [n]) ++ q) in HN by (rewrite <- app_assoc; reflexivity).
+      apply NoDup_app_l in HN. exact HN.
+    - intros p Hpp. apply Hin. eapply Permutation_in; [apply Permutation_sym; exact Hp|].
+      apply in_app_iff in Hpp. apply in_app_iff. destruct Hpp as [H|[H|[]]]; [left; exact H | right; left; exact H].
+  Qed.
+
+  Lemma fp_deps_inv P n : forall todo done c vis q grp,
+    JI P n done c vis q grp -> done ++ todo = dp n -> In n nodes -> reach n ->
+    match fp_deps g todo c vis q grp with
+    | (c', vis', q', grp') =>
+        JI P n (dp n) c' vis' q' grp' /\ (length q' + length vis = length q + length vis')%nat
+    end.
+  Proof.
+    induction todo as [|d todo IH]; intros done c vis q grp HJ Hd Hn Hr.
+    - cbn [fp_deps]. rewrite app_nil_r in Hd. subst done. split; [exact HJ | lia].
+    - cbn [fp_deps].
+      assert (Hdn : In d nodes) by (apply (Hcl n d Hn); rewrite <- Hd; apply in_app_iff; right; left; reflexivity).
+      assert (Hdr : reach d) by (apply (reach_d n d Hr); rewrite <- Hd; apply in_app_iff; right; left; reflexivity).
+      destruct HJ as [J1 J2 J3 J4 J5 J6 J7 J8].
+      destruct (perm_parts vis P n q J1 J2 (fun v Hv => proj1 (J3 v Hv))) as [HN HI].
+      pose proof (SP_bound P n done (d :: todo) d HN HI Hd Hdn) as HB. rewrite (countp_cons d d) in HB.
+      destruct (Pos.eq_dec d d) as [_|Ne]; [|congruence].
+      assert (Hd' : (done ++ [d]) ++ todo = dp n) by (rewrite <- app_assoc; exact Hd).
+      destruct (memp d vis) eqn:Ev.
+      + (* already visited: fetch_add *)
+        apply memp_In in Ev.
+        assert (Hc : getz c d = Z.of_nat (SP P d + countp d done)) by (apply (J7 d Hdn); exact Ev).
+        assert (Hadd : add_inc c d = PM.add d (Z.of_nat (SP P d + countp d done) + 1) c).
+        { unfold add_inc. destruct (getz c d =? K64) eqn:EK; [apply Z.eqb_eq in EK; lia|]. rewrite Hc.
+          rewrite wrap64_small; [reflexivity | unfold K64 in *; lia]. }
+        rewrite Hadd. apply (IH (done ++ [d])); try assumption.
+        constructor; try assumption.
+        * intros y Hy. apply in_app_iff in Hy. destruct Hy as [Hy|[<-|[]]]; [apply J6; exact Hy | exact Ev].
+        * intros y Hy. split.
+          -- intros Hv. destruct (Pos.eq_dec y d) as [->|Ne].
+             ++ rewrite getz_add_same, countp_app, (countp_cons d d), countp_nil. destruct (Pos.eq_dec d d); [lia | congruence].
+             ++ rewrite getz_add_other by exact Ne. rewrite countp_app, (countp_cons y d), countp_nil.
+                destruct (Pos.eq_dec d y); [congruence|]. rewrite Nat.add_0_r. apply (J7 y Hy). exact Hv.
+          -- intros Hv. assert (y <> d) by (intros ->; contradiction). rewrite getz_add_other by assumption. apply (J7 y Hy). exact Hv.
+      + (* first visit: store 1, enqueue *)
+        apply memp_false in Ev.
+        assert (Hc : getz c d = K64) by (apply (J7 d Hdn); exact Ev).
+        assert (Hadd : add_inc c d = PM.add d 1 c) by (unfold add_inc; rewrite Hc, Z.eqb_refl; reflexivity).
+        rewrite Hadd.
+        assert (HS0 : SP P d = 0%nat).
+        { unfold SP. apply tsum_zero. intros p Hp. destruct (Nat.eq_dec (countp d (dp p)) 0) as [E|E]; [exact E|].
+          exfalso. apply Ev. apply (J5 p d Hp). apply countp_In. lia. }
+        assert (HD0 : countp d done = 0%nat).
+        { destruct (Nat.eq_dec (countp d done) 0) as [E|E]; [exact E|]. exfalso. apply Ev. apply J6. apply countp_In. lia. }
+        specialize (IH (done ++ [d]) (PM.add d 1 c) (d :: vis) (q ++ [d]) (add_group g d grp)).
+        destruct (fp_deps g todo (PM.add d 1 c) (d :: vis) (q ++ [d]) (add_group g d grp)) as [[[c' vis'] q'] grp'].
+        assert (HJ' : JI P n (done ++ [d]) (PM.add d 1 c) (d :: vis) (q ++ [d]) (add_group g d grp)).
+        { constructor.
+          - replace (P ++ n :: q ++ [d]) with ((P ++ n :: q) ++ [d]) by (rewrite <- app_assoc; reflexivity).
+            eapply Permutation_trans; [apply perm_skip; exact J1 | apply Permutation_cons_append].
+          - constructor; assumption.
+          - intros v [<-|Hv]; [split; assumption | apply J3; exact Hv].
+          - intros m Hm. right. apply J4. exact Hm.
+          - intros p y Hp Hy. right. eapply J5; eauto.
+          - intros y Hy. apply in_app_iff in Hy. destruct Hy as [Hy|[<-|[]]]; [right; apply J6; exact Hy | left; reflexivity].
+          - intros y Hy. split.
+            + intros Hv. destruct (Pos.eq_dec y d) as [->|Ne].
+              * rewrite getz_add_same, countp_app, (countp_cons d d), countp_nil, HS0, HD0. destruct (Pos.eq_dec d d); [reflexivity | congruence].
+              * rewrite getz_add_other by exact Ne. rewrite countp_app, (countp_cons y d), countp_nil.
+                destruct (Pos.eq_dec d y); [congruence|]. rewrite Nat.add_0_r. apply (J7 y Hy).
+                destruct Hv as [E|Hv]; [congruence | exact Hv].
+            + intros Hv. assert (y <> d) by (intros ->; apply Hv; left; reflexivity). rewrite getz_add_other by assumption.
+              apply (J7 y Hy). intros Hv'. apply Hv. right. exact Hv'.
+          - apply (grp_ok_ext (fun v => v = d \/ In v vis)); [|apply add_group_ok; exact J8]. intros v. simpl. split; intros [E|H]; auto. }
+        destruct (IH HJ' Hd' Hn Hr) as [R1 R2]. split; [exact R1|]. rewrite app_length in R2. simpl in R2. lia.
+  Qed.
+
+
+  Record JO (P q : list positive) (c : zmap) (vis grp : list positive) : Prop := mkJO {
+    jo_perm : Permutation vis (P ++ q);
+    jo_nodup : NoDup vis;
+    jo_in : forall v, In v vis -> In v nodes /\ reach v;
+    jo_m : forall m, In m M -> In m vis;
+    jo_closed : forall p d, In p P -> In d (dp p) -> In d vis;
+    jo_cnt : forall d, In d nodes -> (In d vis -> getz c d = Z.of_nat (SP P d)) /\ (~ In d vis -> getz c d = K64);
+    jo_grp : grp_ok (fun v => In v vis) grp }.
+
+  Lemma vis_length vis : NoDup vis -> (forall v, In v vis -> In v nodes) -> (length vis <= length nodes)%nat.
+  Proof. intros H1 H2. apply NoDup_incl_length; [exact H1 | exact H2]. Qed.
+
+  Lemma fp_bfs_inv : forall fuel q P c vis grp,
+    JO P q c vis grp -> (length q + (length nodes - length vis) <= fuel)%nat ->
+    exists c' vis' grp' P', fp_bfs g fuel q c vis grp = Some (c', vis', grp') /\ JO P' [] c' vis' grp'.
+  Proof.
+    induction fuel as [|f IH]; intros q P c vis grp HJ Hf.
+    - destruct q as [|n q]; [|simpl in Hf; lia]. exists c, vis, grp, P. split; [reflexivity | exact HJ].
+    - destruct q as [|n q]; [exists c, vis, grp, P; split; [reflexivity | exact HJ]|].
+      cbn [fp_bfs]. destruct HJ as [J1 J2 J3 J4 J5 J7 J8].
+      assert (Hnv : In n vis) by (eapply Permutation_in; [apply Permutation_sym; exact J1 | apply in_app_iff; right; left; reflexivity]).
+      destruct (J3 n Hnv) as [Hn Hr].
+      assert (HJI : JI P n [] c vis q grp).
+      { constructor; try assumption; [intros d [] | intros d Hd; rewrite countp_nil, Nat.add_0_r; apply J7; exact Hd]. }
+      pose proof (fp_deps_inv P n (dp n) [] c vis q grp HJI eq_refl Hn Hr) as HD. change (getl (g_deps g) n) with (dp n).
+      destruct (fp_deps g (dp n) c vis q grp) as [[[c' vis'] q'] grp']. destruct HD as [[K1 K2 K3 K4 K5 K6 K7 K8] HL].
+      pose proof (vis_length vis' K2 (fun v Hv => proj1 (K3 v Hv))) as HV.
+      apply (IH q' (P ++ [n])).
+      + constructor; try assumption.
+        * rewrite <- app_assoc. exact K1.
+        * intros p d Hp Hd. apply in_app_iff in Hp. destruct Hp as [Hp|[<-|[]]]; [eapply K5; eauto | apply K6; exact Hd].
+        * intros d Hd. destruct (K7 d Hd) as [A B]. split; [|exact B]. intros Hv. rewrite (A Hv). unfold SP. rewrite tsum_app, tsum_cons, tsum_nil. f_equal. lia.
+      + simpl in Hf. lia.
+  Qed.
+
+  Lemma fold_group l : forall (inV : positive -> Prop) grp,
+    grp_ok inV grp -> grp_ok (fun v => In v l \/ inV v) (fold_left (fun grp n => add_group g n grp) l grp).
+  Proof.
+    induction l as [|a l IH]; intros inV grp H; cbn [fold_left].
+    - apply (grp_ok_ext inV); [|exact H]. intros v. simpl. tauto.
+    - apply (grp_ok_ext (fun v => In v l \/ (v = a \/ inV v))); [|apply IH; apply add_group_ok; exact H]. intros v. simpl. intuition congruence.
+  Qed.
+
+  Lemma M_spec n : In n M <-> In n nodes /\ incb c0 n = true.
+  Proof. unfold M, fp_start. rewrite filter_In. reflexivity. Qed.
+
+  Lemma JO_init : JO [] M c0 (rev M) (fold_left (fun grp n => add_group g n grp) M []).
+  Proof.
+    assert (HNM : NoDup M) by (apply NoDup_filter; exact Hnd).
+    constructor.
+    - simpl. apply Permutation_sym, Permutation_rev.
+    - eapply Permutation_NoDup; [apply Permutation_rev | exact HNM].
+    - intros v Hv. apply in_rev in Hv. split; [apply M_spec in Hv; tauto | apply reach_m; exact Hv].
+    - intros m Hm. apply in_rev. rewrite rev_involutive. exact Hm.
+    - intros p d [].
+    - intros d Hd. unfold SP. rewrite tsum_nil. split.
+      + intros Hv. apply in_rev in Hv. apply M_spec in Hv. destruct Hv as [_ Hi]. unfold incb in Hi. apply negb_true_iff, Z.eqb_neq in Hi.
+        destruct (Hpre d Hd) as [E|E]; [exact E | contradiction].
+      + intros Hv. destruct (incb c0 d) eqn:Hi.
+        * exfalso. apply Hv. apply in_rev. rewrite rev_involutive. apply M_spec. auto.
+        * unfold incb in Hi. apply negb_false_iff, Z.eqb_eq in Hi. exact Hi.
+    - apply (grp_ok_ext (fun v => In v M \/ False)); [|apply (fold_group M (fun _ => False) [])].
+      + intros v. rewrite <- in_rev. tauto.
+      + intros s. simpl. split; [tauto|]. intros [_ [v [[] _]]].
+  Qed.
+
+  (* result of the first pass *)
+  Lemma pass1_spec :
+    exists c1 vis grp,
+      fp_bfs g (S (length nodes)) M c0 (rev M) (fold_left (fun grp n => add_group g n grp) M []) = Some (c1, vis, grp) /\
+      NoDup vis /\ (forall n, In n vis <-> reach n) /\ (forall n, reach n -> In n nodes) /\
+      (forall d, In d nodes -> (In d vis -> getz c1 d = Z.of_nat (SP vis d)) /\ (~ In d vis -> getz c1 d = K64)) /\
+      grp_ok (fun v => In v vis) grp.
+  Proof.
+    destruct (fp_bfs_inv (S (length nodes)) M [] c0 (rev M) _ JO_init) as [c1 [vis [grp [P [E [J1 J2 J3 J4 J5 J7 J8]]]]]].
+    { rewrite rev_length. pose proof (vis_length M (NoDup_filter _ Hnd) (fun v Hv => proj1 (proj1 (M_spec v) Hv))). lia. }
+    exists c1, vis, grp. split; [exact E|]. rewrite app_nil_r in J1.
+    assert (HR : forall n, reach n -> In n vis).
+    { intros n Hr. induction Hr as [n Hn | p d Hp IH Hd]; [apply J4; exact Hn|].
+      apply (J5 p d); [eapply Permutation_in; eauto | exact Hd]. }
+    split; [exact J2|]. split; [intros n; split; [intros Hv; apply (J3 n Hv) | apply HR]|].
+    split; [intros n Hr; apply (J3 n (HR n Hr))|]. split; [|exact J8].
+    intros d Hd. destruct (J7 d Hd) as [A B]. split; [|exact B]. intros Hv. rewrite (A Hv). f_equal. unfold SP. apply tsum_perm. apply Permutation_sym. exact J1.
+  Qed.
+
+End FP.
+
+(* ------------------------------------------------------------------------------------------------ second pass *)
+
+Definition stepM (st : zmap * list positive) (m : positive) : zmap * list positive :=
+  let '(c, v2) := st in if getz c m =? K64 then (PM.add m 0 c, v2 ++ [m]) else (c, v2).
+Definition stepI (c : zmap) (d : positive) : zmap :=
+  if getz c d =? K64 then c else PM.add d (wrap64 (getz c d + 1)) c.
+
+Lemma mark_flat g grp : forall st,
+  fold_left (fun '(c, v2) s => fp_mark_group c v2 (getl (g_sets g) s)) grp st =
+  fold_left stepM (flat_map (fun s => getl (g_sets g) s) grp) st.
+Proof.
+  induction grp as [|s grp IH]; intros [c v2]; [reflexivity|]. cbn [fold_left flat_map]. rewrite fold_left_app, IH.
+  f_equal.
+Qed.
+
+Lemma incr_flat (dp : positive -> list positive) v2 : forall c,
+  fold_left (fun c n => fold_left stepI (dp n) c) v2 c = fold_left stepI (flat_map dp v2) c.
+Proof. induction v2 as [|n v2 IH]; intros c; [reflexivity|]. cbn [fold_left flat_map]. rewrite fold_left_app, IH. reflexivity. Qed.
+
+Lemma countp_flat_map (dp : positive -> list positive) x l : countp x (flat_map dp l) = tsum (fun p => countp x (dp p)) l.
+Proof. induction l as [|a l IH]; [reflexivity|]. cbn [flat_map]. rewrite countp_app, tsum_cons, IH. reflexivity. Qed.
+
+Lemma mark_spec (cI : zmap) L : forall c v2,
+  NoDup v2 -> (forall x, In x v2 -> getz c x = 0 /\ getz cI x = K64) -> (forall x, ~ In x v2 -> getz c x = getz cI x) ->
+  match fold_left stepM L (c, v2) with
+  | (c', v2') =>
+      NoDup v2' /\ (forall x, In x v2' -> getz c' x = 0 /\ getz cI x = K64) /\ (forall x, ~ In x v2' -> getz c' x = getz cI x) /\
+      (forall x, In x v2' <-> In x v2 \/ (In x L /\ getz cI x = K64))
+  end.
+Proof.
+  induction L as [|m L IH]; intros c v2 H1 H2 H3.
+  - cbn [fold_left]. split; [exact H1|]. split; [exact H2|]. split; [exact H3|]. intros x. simpl. tauto.
+  - cbn [fold_left stepM]. destruct (getz c m =? K64) eqn:E.
+    + apply Z.eqb_eq in E.
+      assert (Hm : ~ In m v2). { intros Hm. destruct (H2 m Hm) as [A _]. unfold K64 in E. lia. }
+      assert (HmI : getz cI m = K64) by (rewrite <- (H3 m Hm); exact E).
+      specialize (IH (PM.add m 0 c) (v2 ++ [m])).
+      destruct (fold_left stepM L (PM.add m 0 c, v2 ++ [m])) as [c' v2'].
+      destruct IH as [A [B [C D]]].
+      * apply NoDup_app_comm. simpl. constructor; assumption.
+      * intros x Hx. apply in_app_iff in Hx. destruct Hx as [Hx|[<-|[]]].
+        -- assert (x <> m) by (intros ->; contradiction). rewrite getz_add_other by assumption. apply H2. exact Hx.
+        -- rewrite getz_add_same. auto.
+      * intros x Hx. assert (x <> m) by (intros ->; apply Hx; apply in_app_iff; right; left; reflexivity).
+        rewrite getz_add_other by assumption. apply H3. intros Hv. apply Hx. apply in_app_iff. left. exact Hv.
+      * split; [exact A|]. split; [exact B|]. split; [exact C|]. intros x. rewrite (D x), in_app_iff. simpl. split.
+        -- intros [[H|[<-|[]]]|[H H']]; auto.
+        -- intros [H|[[<-|H] H']]; auto.
+    + apply Z.eqb_neq in E. specialize (IH c v2 H1 H2 H3). destruct (fold_left stepM L (c, v2)) as [c' v2'].
+      destruct IH as [A [B [C D]]]. split; [exact A|]. split; [exact B|]. split; [exact C|]. intros x. rewrite (D x). simpl. split.
+      * intros [H|[H H']]; auto.
+      * intros [H|[[<-|H] H']]; auto. left. destruct (in_dec Pos.eq_dec x v2) as [Hv|Hv]; [exact Hv|]. exfalso. apply E. rewrite (H3 x Hv). exact H'.
+Qed.
+
+Lemma incr_spec x E : forall c,
+  (getz c x = K64 -> getz (fold_left stepI E c) x = K64) /\
+  (getz c x <> K64 -> 0 <= getz c x -> getz c x + Z.of_nat (countp x E) < K64 ->
+   getz (fold_left stepI E c) x = getz c x + Z.of_nat (countp x E)).
+Proof.
+  induction E as [|d E IH]; intros c.
+  - cbn [fold_left]. rewrite countp_nil. split; intros; lia.
+  - cbn [fold_left]. rewrite (countp_cons x d). unfold stepI at 2 4. destruct (getz c d =? K64) eqn:EK.
+    + apply Z.eqb_eq in EK. destruct (IH c) as [A B]. split; [exact A|]. intros H1 H2 H3.
+      destruct (Pos.eq_dec d x) as [->|Ne]; [contradiction|]. rewrite B; lia.
+    + apply Z.eqb_neq in EK. destruct (Pos.eq_dec d x) as [->|Ne].
+      * destruct (IH (PM.add x (wrap64 (getz c x + 1)) c)) as [A B]. split; [intros; contradiction|]. intros H1 H2 H3.
+        assert (W : wrap64 (getz c x + 1) = getz c x + 1) by (apply wrap64_small; unfold K64 in *; lia).
+        rewrite B; rewrite getz_add_same, W; lia.
+      * destruct (IH (PM.add d (wrap64 (getz c d + 1)) c)) as [A B]. rewrite getz_add_other in A, B by (intros ->; congruence).
+        split; [exact A|]. intros H1 H2 H3. rewrite B; lia.
+Qed.
+
+Definition sets_live (g : graph) : Prop :=
+  forall v s m, In v (g_nodes g) -> PM.find v (g_setof g) = Some s -> In m (getl (g_sets g) s) -> In m (g_nodes g).
+
+(* what must be re-run: the forward closure of the marked nodes and, in a BiPropGraph, every member of a set OBJECT that
+   a closure node points to *)
+Definition rerun_set (g : graph) (n : positive) : Prop :=
+  reach g n \/ (g_bip g = true /\ exists p s, reach g p /\ PM.find p (g_setof g) = Some s /\ In n (getl (g_sets g) s)).
+
+Theorem fp_correct g :
+  NoDup (g_nodes g) ->
+  (forall p d, In p (g_nodes g) -> In d (getl (g_deps g) p) -> In d (g_nodes g)) ->
+  (forall n, In n (g_nodes g) -> getz (g_cnt g) n = 0 \/ getz (g_cnt g) n = K64) ->
+  (forall d, In d (g_nodes g) -> Z.of_nat (np_count g d) < K64) ->
+  sets_live g ->
+  exists c', forward_propagate g = Some (with_cnt g c') /\
+    Prepared (xg_of g) c' /\
+    (forall n, In n (g_nodes g) -> (incb c' n = true <-> rerun_set g n)).
+Proof.
+  intros Hnd Hcl Hpre Hb Hlive.
+  set (nodes := g_nodes g). set (dp := fun n => getl (g_deps g) n).
+  assert (Hb' : forall d, In d nodes -> Z.of_nat (SP g nodes d) < K64) by exact Hb.
+  destruct (pass1_spec g Hnd Hcl Hpre Hb') as [c1 [vis [grp [E1 [Hvn [Hvr [Hrn [Hc1 Hgrp]]]]]]]].
+  assert (Hvis_closed : forall p d, In p vis -> In d (dp p) -> In d vis).
+  { intros p d Hp Hd. apply Hvr. apply (reach_d g p d); [apply Hvr; exact Hp | exact Hd]. }
+  assert (Hvis_nodes : forall v, In v vis -> In v nodes) by (intros v Hv; apply Hrn, Hvr; exact Hv).
+  assert (HSPle : forall l d, NoDup l -> (forall p, In p l -> In p nodes) -> In d nodes -> Z.of_nat (SP g l d) < K64).
+  { intros l d Hl Hi Hd. pose proof (tsum_incl_le (fun p => countp d (dp p)) l nodes Hl Hi). specialize (Hb' d Hd). unfold SP in *. fold dp in Hb'. lia. }
+  unfold forward_propagate. fold nodes. rewrite E1.
+  destruct (g_bip g) eqn:Eb.
+  - (* BiPropGraph: second pass *)
+    unfold fp_pass2. rewrite mark_flat.
+    set (L := flat_map (fun s => getl (g_sets g) s) grp).
+    pose proof (mark_spec c1 L c1 [] (NoDup_nil _) (fun x (H : In x []) => match H with end) (fun x _ => eq_refl)) as HM.
+    destruct (fold_left stepM L (c1, [])) as [c2 v2]. destruct HM as [M1 [M2 [M3 M4]]].
+    assert (HL : forall m, In m L <-> exists p s, reach g p /\ PM.find p (g_setof g) = Some s /\ In m (getl (g_sets g) s)).
+    { intros m. unfold L. rewrite in_flat_map. split.
+      - intros [s [Hs Hm]]. apply Hgrp in Hs. destruct Hs as [_ [v [Hv Hf]]]. exists v, s. split; [apply Hvr; exact Hv | auto].
+      - intros [p [s [Hr [Hf Hm]]]]. exists s. split; [|exact Hm]. apply Hgrp. split; [reflexivity|]. exists p. split; [apply Hvr; exact Hr | exact Hf]. }
+    assert (HLn : forall m, In m L -> In m nodes).
+    { intros m Hm. apply HL in Hm. destruct Hm as [p [s [Hr [Hf Hm]]]]. apply (Hlive p s m); [apply Hrn; exact Hr | exact Hf | exact Hm]. }
+    assert (Hv2 : forall x, In x v2 <-> In x L /\ ~ In x vis).
+    { intros x. rewrite (M4 x). split.
+      - intros [[]|[H1 H2]]. split; [exact H1|]. intros Hv. destruct (Hc1 x (HLn x H1)) as [A _]. specialize (A Hv).
+        specialize (HSPle vis x Hvn Hvis_nodes (HLn x H1)). lia.
+      - intros [H1 H2]. right. split; [exact H1|]. apply (Hc1 x (HLn x H1)). exact H2. }
+    assert (Hv2n : forall x, In x v2 -> In x nodes) by (intros x Hx; apply HLn; apply Hv2; exact Hx).
+    assert (HBnd : NoDup (vis ++ v2)).
+    { apply NoDup_app_comm. apply NoDup_app_intro; [exact M1 | exact Hvn|]. intros x Hx Hv. apply Hv2 in Hx. tauto. }
+    assert (HBn : forall p, In p (vis ++ v2) -> In p nodes) by (intros p Hp; apply in_app_iff in Hp; destruct Hp; auto).
+    change (fun c n => fold_left (fun c0 d => if getz c0 d =? K64 then c0 else PM.add d (wrap64 (getz c0 d + 1)) c0) (getl (g_deps g) n) c)
+      with (fun c n => fold_left stepI (dp n) c).
+    rewrite incr_flat. set (E := flat_map dp v2). set (c3 := fold_left stepI E c2).
+    assert (HcE : forall x, countp x E = SP g v2 x) by (intros x; unfold E; apply countp_flat_map).
+    assert (Hc3 : forall d, In d nodes -> (In d (vis ++ v2) -> getz c3 d = Z.of_nat (SP g (vis ++ v2) d)) /\ (~ In d (vis ++ v2) -> getz c3 d = K64)).
+    { intros d Hd. destruct (incr_spec d E c2) as [A B]. fold c3 in A, B. rewrite HcE in B.
+      pose proof (HSPle (vis ++ v2) d HBnd HBn Hd) as HB1. unfold SP in HB1. rewrite tsum_app in HB1. fold (SP g vis d) (SP g v2 d) in HB1.
+      split.
+      - intros Hin. unfold SP. rewrite tsum_app. fold (SP g vis d) (SP g v2 d). apply in_app_iff in Hin. destruct Hin as [Hv|Hv].
+        + assert (Hnv : ~ In d v2) by (intros H; apply Hv2 in H; tauto).
+          destruct (Hc1 d Hd) as [C1 _]. specialize (C1 Hv). rewrite (M3 d Hnv), C1 in B. rewrite B; lia.
+        + destruct (M2 d Hv) as [C1 _]. rewrite C1 in B.
+          assert (HS0 : SP g vis d = 0%nat).
+          { unfold SP. apply tsum_zero. intros p Hp. destruct (Nat.eq_dec (countp d (getl (g_deps g) p)) 0) as [E0|E0]; [exact E0|]. exfalso.
+            apply Hv2 in Hv. apply (proj2 Hv). apply (Hvis_closed p d Hp). apply countp_In. unfold dp. lia. }
+          rewrite B; unfold K64 in *; lia.
+      - intros Hin. apply A. assert (Hnv : ~ In d v2) by (intros H; apply Hin; apply in_app_iff; auto).
+        rewrite (M3 d Hnv). apply (Hc1 d Hd). intros H; apply Hin; apply in_app_iff; auto. }
+    assert (Hinc : forall d, In d nodes -> (incb c3 d = true <-> In d (vis ++ v2))).
+    { intros d Hd. destruct (Hc3 d Hd) as [A B]. unfold incb. split.
+      - intros H. destruct (in_dec Pos.eq_dec d (vis ++ v2)) as [Hi|Hi]; [exact Hi|]. rewrite (B Hi), Z.eqb_refl in H. discriminate.
+      - intros H. rewrite (A H). pose proof (HSPle (vis ++ v2) d HBnd HBn Hd). apply negb_true_iff, Z.eqb_neq. lia. }
+    exists c3. split; [reflexivity|]. split.
+    + assert (Hcnt0 : forall d, cnt0 (xg_of g) c3 d = SP g (vis ++ v2) d).
+      { intros d. unfold cnt0, SP. cbn [xg_of x_nodes x_deps].
+        apply (tsum_select (fun p => countp d (getl (g_deps g) p)) (incb c3) (vis ++ v2) nodes Hnd HBnd).
+        intros p. split; [intros Hp; split; [apply HBn; exact Hp | apply Hinc; [apply HBn; exact Hp | exact Hp]] | intros [Hp Hi]; apply Hinc; assumption]. }
+      constructor; cbn [xg_of x_nodes x_deps x_bip].
+      * exact Hnd.
+      * exact Hcl.
+      * intros d Hd Hi. rewrite Hcnt0. apply Hinc in Hi; [|exact Hd]. split; [apply (Hc3 d Hd); exact Hi | apply HSPle; assumption].
+      * intros d Hd Hi. apply (Hc3 d Hd). intros Hin. apply Hinc in Hin; [congruence | exact Hd].
+      * rewrite Eb. discriminate.
+    + intros n Hn. rewrite (Hinc n Hn), in_app_iff. unfold rerun_set. rewrite (Hvr n), (Hv2 n), (HL n). rewrite <- (Hvr n). split.
+      * intros [H|[H _]]; [left; exact H | right; split; [reflexivity | exact H]].
+      * intros [H|[_ H]]; [left; exact H|]. destruct (in_dec Pos.eq_dec n vis) as [Hv|Hv]; [left; exact Hv | right; split; assumption].
+  - (* plain Graph *)
+    assert (Hinc : forall d, In d nodes -> (incb c1 d = true <-> In d vis)).
+    { intros d Hd. destruct (Hc1 d Hd) as [A B]. unfold incb. split.
+      - intros H. destruct (in_dec Pos.eq_dec d vis) as [Hi|Hi]; [exact Hi|]. rewrite (B Hi), Z.eqb_refl in H. discriminate.
+      - intros H. rewrite (A H). pose proof (HSPle vis d Hvn Hvis_nodes Hd). apply negb_true_iff, Z.eqb_neq. lia. }
+    exists c1. split; [reflexivity|]. split.
+    + assert (Hcnt0 : forall d, cnt0 (xg_of g) c1 d = SP g vis d).
+      { intros d. unfold cnt0, SP. cbn [xg_of x_nodes x_deps].
+        apply (tsum_select (fun p => countp d (getl (g_deps g) p)) (incb c1) vis nodes Hnd Hvn).
+        intros p. split; [intros Hp; split; [apply Hvis_nodes; exact Hp | apply Hinc; [apply Hvis_nodes; exact Hp | exact Hp]] | intros [Hp Hi]; apply Hinc; assumption]. }
+      constructor; cbn [xg_of x_nodes x_deps x_bip].
+      * exact Hnd.
+      * exact Hcl.
+      * intros d Hd Hi. rewrite Hcnt0. apply Hinc in Hi; [|exact Hd]. split; [apply (Hc1 d Hd); exact Hi | apply HSPle; assumption].
+      * intros d Hd Hi. apply (Hc1 d Hd). intros Hin. apply Hinc in Hin; [congruence | exact Hd].
+      * intros _ p d Hp Hi Hd. apply Hinc; [eapply Hcl; eauto|]. apply (Hvis_closed p d); [apply Hinc; assumption | exact Hd].
+    + intros n Hn. rewrite (Hinc n Hn), (Hvr n). unfold rerun_set. split; [auto|]. intros [H|[H _]]; [exact H | discriminate].
 Qed.
